@@ -23,7 +23,8 @@ RULE = ("seeded random DCOPs: 1-5 variables (plain, cost dict, cost function, co
         "external variable given with another value / None for a variable outside every scope; "
         "called through DCOP.solution_cost (objective min or max), the module function solution_cost, and "
         "assignment_cost (with and without consider_variable_cost, values partly in kwargs, "
-        "missing values); non-trivial = at least one constraint and two cost terms; distinct = "
+        "missing values); constraints / variables handed over as list, tuple, generator, filter "
+        "object, iterator, dict values view or set; non-trivial = at least one constraint and two cost terms; distinct = "
         "distinct case JSON")
 MODELLED = ("solution_cost (completeness test, constraint terms then variable-cost terms, hard/soft "
             "split), DCOP.solution_cost (external values override and count as variables) and "
@@ -57,6 +58,32 @@ RELS = ["c0", "c1", "c2", "c3", "c4"]
 NID = {n: i for i, n in enumerate(VARS + EXTS + EXTRA + RELS)}
 DOMAINS = [[0, 1], [0, 1, 2], [1, 5, 7]]
 INFS = ["inf", "inf", "inf", 10000, 10000, 0, "-inf"]
+
+
+ITERABLES = ["list", "tuple", "generator", "filter", "iterator", "dict_values", "set"]
+SIZED = ["list", "tuple", "dict_values", "set"]
+
+
+def _as(kind, objs):
+    """the same objects as another kind of iterable"""
+    objs = list(objs)
+    if kind == "tuple":
+        return tuple(objs)
+    if kind == "generator":
+        return (o for o in objs)
+    if kind == "filter":
+        return filter(lambda o: True, objs)
+    if kind == "iterator":
+        return iter(objs)
+    if kind == "dict_values":
+        return {i: o for i, o in enumerate(objs)}.values()
+    if kind == "set":
+        try:
+            st = set(objs)
+        except TypeError:
+            return objs
+        return st if len(st) == len(objs) else objs
+    return objs
 
 
 def _cost(rng):
@@ -106,6 +133,12 @@ def gen(rng, n, tier):
         asg = [[v, rng.choice(dom)] for v in vs]
         rng.shuffle(asg)
         c = dict(mode=mode, dom=dom, vars=variables, exts=exts, rels=rels, infinity=rng.choice(INFS))
+        # the signatures take iterables: hand the constraints (and the variables, which must be
+        # sized and re-iterable) over as different kinds of iterable, one-shot ones included
+        if mode != "dcop":
+            c["rels_as"] = rng.choice(ITERABLES)
+        if mode == "func":
+            c["vars_as"] = rng.choice(SIZED)
         if mode == "dcop":
             # the accounting must not depend on the DCOP's objective
             c["objective"] = rng.choice(["min", "max"])
@@ -246,7 +279,8 @@ def run_impl(case):
     inf = _f(case["infinity"])
     if case["mode"] == "acost":
         try:
-            c = assignment_cost(asg, rels, case["consider"], **{k: v for k, v in case["kwargs"]})
+            c = assignment_cost(asg, _as(case.get("rels_as", "list"), rels), case["consider"],
+                                **{k: v for k, v in case["kwargs"]})
         except Exception as e:
             return dict(_err(e), dims=dims)
         return dict(cost=_canon(c), dims=dims)
@@ -261,7 +295,9 @@ def run_impl(case):
             if asg != before:
                 return dict(error="assignment-mutated", dims=dims)
         else:
-            res = solution_cost(rels, [objs[v["name"]] for v in case["vars"]], asg, inf)
+            res = solution_cost(_as(case.get("rels_as", "list"), rels),
+                                _as(case.get("vars_as", "list"), [objs[v["name"]] for v in case["vars"]]),
+                                asg, inf)
     except Exception as e:
         return dict(_err(e), dims=dims)
     hard, soft = res
@@ -415,7 +451,7 @@ def histogram(cases, obs):
     h = {}
     for c, o in zip(cases, obs):
         for k in ("mode=" + c["mode"], "shape=" + c["shape"], "infinity=%s" % c["infinity"],
-                  "objective=" + c.get("objective", "-"),
+                  "objective=" + c.get("objective", "-"), "rels_as=" + c.get("rels_as", "-"),
                   "outcome=" + (o.get("error", "ok") if isinstance(o, dict) else "?")):
             h[k] = h.get(k, 0) + 1
     return h
